@@ -32,7 +32,15 @@ AddLaws(e) ==
   /\ e.den                                        \* a+b and b+a denote the same; a-b = -(b-a)
   /\ ~e.exempt => (e.sameunit /\ e.samevalue /\ e.antisym)
 
-Judge(e) == IF e.ev = "cmp" THEN CmpLaws(e) ELSE IF e.ev = "add" THEN AddLaws(e) ELSE FALSE
+\* simp event (C05): facts about the raw (unsimplified) value and the displayed value of the same expression
+\*   samedim: same base-unit vector (exact); samemag: same magnitude in base units (comparator, rel 1e-9);
+\*   explicit: the value comes from an explicit conversion; identical: displayed unit and value = raw unit and value;
+\*   texts: string interpolation and print show the displayed value
+SimpLaws(e) == /\ e.samedim /\ e.samemag /\ e.texts
+               /\ e.explicit => e.identical
+
+Judge(e) == IF e.ev = "cmp" THEN CmpLaws(e) ELSE IF e.ev = "add" THEN AddLaws(e)
+            ELSE IF e.ev = "simp" THEN SimpLaws(e) ELSE FALSE
 
 TraceInit == l = 1 /\ tr = ndJsonDeserialize(IOEnv.TRACE)
 \* every event is judged; an event that breaks its law table is reported (line number) and skipped,
